@@ -12,6 +12,8 @@
 5. constructive-gate (MIR dominance): in `apply`, every creation (`put`, `push`) is control-dependent on
    `action.is_constructive()` being true, so non-constructive actions on missing paths have no side effects.
 """
+import re
+
 from . import facts, hirq as H, mirq as M, common as C
 
 LEVEL_TEXT = ("Exhaustive over the action enum for two tables and over every path of the listed methods (MIR). Decides the "
@@ -92,6 +94,28 @@ def none_side_blocks(f, call_bb):
                 elif c.endswith("Option::<T>::is_none") and x["a"] and from_call(M.op_place(x["a"][0])["l"]):
                     out.append(tt["else"])
     return out
+
+
+def push_plumbing(chk, fx, rule="push-plumbing"):
+    """apply_push_<ty>_impl hands the pushed value, unconverted, to PrimitiveValue::extend_<ty> (existing element) and to
+    PrimitiveValue::from (new element): no cast, no detour through the extend function of another type"""
+    chk.rule(rule, "apply_push_<ty>_impl: existing value -> v.extend_<ty>([<the parameter>]); missing attribute -> PrimitiveValue::from(<the parameter>); no `as` cast of the pushed value")
+    obj = "dicom_object::mem::InMemDicomObject"
+    for ty in ("str", "i32", "u32", "i16", "u16", "f32", "f64"):
+        h = fx.method("dicom_object", obj, f"apply_push_{ty}_impl")
+        prm = [b for p in (h.get("params") or [])[2:] for b in H.pat_bindings(p)]
+        if len(prm) != 1:
+            raise facts.MissingAnchor(f"apply_push_{ty}_impl: value parameter")
+        pv = prm[0]
+        ext = [x for x in H.walk(h["body"]) if H.kind(x) == "mcall" and x[3].startswith("extend_")]
+        got = [(x[3], H.show(x[5][0], 5) if x[5] else None) for x in ext]
+        chk.expect(got == [(f"extend_{ty}", f"[{pv}]")], rule, f"apply_push_{ty}_impl", "extend-call", [(f"extend_{ty}", f"[{pv}]")], got, loc=C.fn_loc(h))
+        casts = [H.show(x, 4) for x in H.walk(h["body"]) if H.kind(x) == "cast" and any(H.path_of(y) == pv for y in H.walk(x[2]) if H.kind(y) == "path")]
+        chk.expect(not casts, rule, f"apply_push_{ty}_impl", "no-cast-of-the-pushed-value", "none", casts, loc=C.fn_loc(h))
+        news = [H.show(a, 5) for x in H.walk(h["body"]) if H.kind(x) == "call" and re.search(r"(PrimitiveValue as core::convert::From<.*>>::from|core::convert::From::from|core::convert::Into::into)$", H.callee(x) or "")
+                for a in H.call_args(x)[:1]]
+        uses = [x for x in H.walk(h["body"]) if H.kind(x) == "path" and x[3] == "local" and H.path_of(x) == pv]
+        chk.expect(len(uses) >= 2 and (pv in news or any(pv in n for n in news)), rule, f"apply_push_{ty}_impl", "new-element-value", f"PrimitiveValue::from({pv})", news, loc=C.fn_loc(h))
 
 
 def run(chk, tier):
@@ -262,4 +286,5 @@ def run(chk, tier):
     # Push* actions delegate to PrimitiveValue::extend_*: "push appends" needs every arm there to keep the existing values first
     from . import c11
     c11.extend_appends(chk, fx, "push-appends")
+    push_plumbing(chk, fx)
     chk.undecided.append("equivalence with a reference model over arbitrary operation sequences; write/read-back of the resulting objects")
